@@ -789,6 +789,20 @@ class Context:
         if (r1 == "sat") != can_true or (r2 == "sat") != can_false:
             raise Inconclusive(f"domain propagation disagrees with z3 on {e}: z3 {r1}/{r2}, propagation {can_true}/{can_false}")
 
+    def _check_fresh(self, *extra):
+        """path condition + extra in a fresh non-incremental solver"""
+        t0 = time.time()
+        s = z3.Solver()
+        s.set("timeout", self.timeout_ms)
+        s.set("rlimit", self.timeout_ms * 20000)  # deterministic resource bound as a second guard
+        s.add(*self.pc)
+        s.add(*extra)
+        r = str(s.check())
+        self.stats.queries += 1
+        self.stats.solver_s += time.time() - t0
+        self._last_fresh = s if r == "sat" else None
+        return r
+
     def _check_pc(self, extra):
         """check path condition + extra in a scratch solver (used for cross-checks only)"""
         t0 = time.time()
@@ -865,7 +879,12 @@ class Context:
         if i < len(self.trail):
             self._record(cond)
             return
-        r = self._check(cond)
+        if self.lazy:
+            r = self._check_fresh(cond)  # nonlinear context: non-incremental solver (full NRA pipeline)
+        else:
+            r = self._check(cond)
+            if r == "unknown":
+                r = self._check_fresh(cond)
         if r == "unknown":
             self.stats.unknown += 1
             raise Inconclusive(f"assume unknown: {why}")
@@ -900,14 +919,20 @@ class Context:
         if z3.is_true(s):
             self.stats.discharged += 1
             return True
-        r = self._check(z3.Not(cond))
+        if self.lazy:
+            # nonlinear definitions are pending: the incremental core is weak on NRA (and does
+            # not always honour its timeout there); decide in fresh solvers only
+            r = self._check_fresh(z3.Not(cond))
+        else:
+            r = self._check(z3.Not(cond))
         if r == "unsat":
             self.stats.discharged += 1
             return True
-        if self.lazy:
-            # refine: add the definitions of the quotient / square-root variables
+        if self.lazy or r == "unknown":
+            # refine: add the definitions of the quotient / square-root variables and decide in
+            # a fresh (non-incremental) solver, where z3 applies its full NRA pipeline (nlsat)
             self.lazy_used += 1
-            r = self._check(z3.Not(cond), *self.lazy)
+            r = self._check_fresh(z3.Not(cond), *self.lazy)
             if r == "unsat":
                 self.stats.discharged += 1
                 return True
@@ -920,13 +945,21 @@ class Context:
         return False
 
     def model_of(self, *extra):
-        self.solver.push()
-        if extra:
-            self.solver.add(*extra)
-        r = self.solver.check()
+        fresh = None
+        if self.lazy and extra:
+            fresh = z3.Solver()
+            fresh.set("timeout", self.timeout_ms)
+            fresh.add(*self.pc)
+            fresh.add(*extra)
+            r = fresh.check()
+        else:
+            self.solver.push()
+            if extra:
+                self.solver.add(*extra)
+            r = self.solver.check()
         out = {}
         if str(r) == "sat":
-            m = self.solver.model()
+            m = (fresh or self.solver).model()
             for d in m.decls():
                 if d.arity() == 0:
                     v = m[d]
@@ -938,7 +971,8 @@ class Context:
                         out[d.name()] = v.approx(12).as_decimal(12).rstrip("?")
                     else:
                         out[d.name()] = str(v)
-        self.solver.pop()
+        if fresh is None:
+            self.solver.pop()
         return out
 
 
